@@ -11,6 +11,9 @@ are known in closed form from dense numpy algebra):
   part "inv" : (size, spectrum, real/complex, which modes the operator has, approximation,
                controller) -> InversionEnabler applied in all four modes to EVERY real and
                imaginary unit vector.
+  part "reuse": ONE controller + ConjugateGradient (or InversionEnabler) object used for 2-3 consecutive solves
+               with right-hand sides b, 1e-3 b, 1e2 b in every order (all 12 ordered selections), every controller
+               kind; the full cg oracle is applied to every solve (a reused controller must act like a fresh one).
   part "qe"  : QuadraticEnergy value / gradient / at / at_with_grad / apply_metric on the point set
                {0, e_i, i e_i, e_i + e_j, e_i + i e_j, generic} which determines a quadratic
                form completely.
@@ -56,6 +59,7 @@ CTRL = {
     "ade_l2": ("AbsDeltaEnergyController", dict(deltaE=1e-6, convergence_level=2), 2),
     "sade": ("StochasticAbsDeltaEnergyController", dict(deltaE=1e-7, memory_length=3), 1),
 }
+REUSE_SCALES = [1., 1e-3, 1e2]
 CTRL_ORDER = ["gn_abs", "gn_rel", "gn_abs_l2", "gn_lim", "ginf", "de", "ade", "ade_l2", "sade"]
 
 
@@ -151,7 +155,24 @@ def cases(tier, seed):
                                             ("ginf", None), ("ade", None), ("sade", None), ("de", None)):
                                 out.append(dict(part="inv", n=n, spec=spec, cplx=cplx, dom=dom, has=has, approx=approx,
                                                 ctrl=ck, limit=lim, seed=seed))
-    order = {"qe": 0, "cg": 1, "inv": 2}
+    # ---- reuse: ONE controller / minimiser / InversionEnabler object used for 2-3 consecutive solves whose
+    # right-hand sides have different norms, in every order; every solve must behave as with a fresh controller
+    orders = [list(p) for k in (2, 3) for p in itertools.permutations(REUSE_SCALES, k)]
+    for n in ([2, 3, 5, 8] if quick else [2, 3, 5, 8, 13, 21]):
+        for spec in _spectra(n):
+            if spec in ("geo1e3", "geo1e5"):
+                continue
+            for cplx in (False, True):
+                for via in ("cg", "inv"):
+                    for rhs in ("e0", "gen"):
+                        for ck in CTRL_ORDER:
+                            for lim in (None, 3):
+                                if ck == "gn_lim" and lim is None:
+                                    continue
+                                for od in orders:
+                                    out.append(dict(part="reuse", n=n, spec=spec, cplx=cplx, dom="un" if n % 2 else "multi", via=via,
+                                                    rhs=rhs, ctrl=ck, limit=lim, scales=od, seed=seed))
+    order = {"qe": 0, "cg": 1, "inv": 2, "reuse": 3}
     out.sort(key=lambda c: (c["n"], order[c["part"]], c["cplx"], c.get("prec", c.get("approx", "")) != "none",
                             c.get("x0", "zero") != "zero"))
     return out
@@ -591,6 +612,62 @@ def run_qe(c):
     return ok(nontrivial=True, outcome="qe:b=%s" % c["b"], stats=dict(qe_points=npts))
 
 
+# ------------------------------------------------------------------ part reuse
+def run_reuse(c):
+    import nifty.cl as ift
+    from vf import dense
+    from vf.ref import c14_sys as S
+    n, cplx, seed = c["n"], c["cplx"], c["seed"]
+    A, lam, U = S.system(n, c["spec"], cplx, seed)
+    b0 = S.vector(c["rhs"], n, cplx, U, seed, tag=1)
+    dom = S.domain(c["dom"], n)
+    L = ift.LinearOperator
+    counter = {}
+    Aop = S.dense_operator(dom, A, L.TIMES | L.ADJOINT_TIMES, cplx, counter)
+    rec = S.recorder(make_controller(c["ctrl"], c["limit"]), counter, 60 * n + 300)
+    logcap = _Capture.get()
+    solver = ift.ConjugateGradient(rec) if c["via"] == "cg" else ift.InversionEnabler(Aop, rec)
+    x0 = np.zeros_like(b0)
+    labels, iters = [], 0
+    for k, sc in enumerate(c["scales"]):
+        b = sc * b0
+        bf = S.to_field(dom, b, cplx)
+        del rec.runs[:]
+        del logcap.msgs[:]
+        try:
+            with np.errstate(all="ignore"):
+                if c["via"] == "cg":
+                    Ef, status = solver(ift.QuadraticEnergy(S.to_field(dom, x0, cplx), Aop, bf))
+                    fin = _entry(Ef)
+                else:
+                    y = solver.inverse_times(bf)
+        except S.Runaway:
+            return bad("solve %d of %s with a reused %s: CG did not terminate" % (k, c["scales"], CTRL[c["ctrl"]][0]),
+                       finding_key="cg|no-termination|%s%s" % (c["ctrl"], "|on-reuse" if k else ""))
+        if len(rec.runs) != 1:
+            return bad("solve %d: %d controller starts" % (k, len(rec.runs)), finding_key="reuse|controller-not-restarted")
+        log = rec.runs[0]
+        if c["via"] == "inv":
+            yv = dense.flatten(y)
+            yv = yv if cplx else yv.real
+            seen = log[-1]["status"] != 1
+            fin = dict(x=yv, g=A @ yv - b, v=S.energy(A, b, yv), obj=log[-1]["obj"] if seen else None)
+            status = 2 if any("Error detected during operator inversion" in m for m in logcap.msgs) else 0
+            if seen and not np.array_equal(yv, log[-1]["x"].real if not cplx else log[-1]["x"]):
+                return bad("InversionEnabler (reused, solve %d) does not return the position the controller converged on" % k,
+                           finding_key="InversionEnabler|returns-other-position")
+        v, label, st = verify(log, fin, status, A, None, b, x0, lam, c["ctrl"], c["limit"], 20, log[0]["napply"],
+                              "%s solve %d of scales %s with one %s object" % (c["via"], k, c["scales"], CTRL[c["ctrl"]][0]),
+                              msgs=list(logcap.msgs))
+        if v is not None:
+            if k:
+                v["finding_key"] = (v.get("finding_key") or "?") + "|on-reuse"
+            return v
+        labels.append(label.replace("conv:", ""))
+        iters += st["cg_iterations"]
+    return ok(nontrivial=iters >= len(c["scales"]), outcome="reuse:" + ">".join(labels), stats=dict(cg_iterations=iters, reuse_solves=len(labels)))
+
+
 def dense_raw(f):
     import nifty.cl as ift
     if isinstance(f, ift.MultiField):
@@ -599,4 +676,4 @@ def dense_raw(f):
 
 
 def run(case):
-    return {"cg": run_cg, "inv": run_inv, "qe": run_qe}[case["part"]](case)
+    return {"cg": run_cg, "inv": run_inv, "qe": run_qe, "reuse": run_reuse}[case["part"]](case)
